@@ -1,0 +1,15 @@
+//go:build verif
+
+package requests
+
+// VerifLists returns the chunk numbers of the queued and of the sent-out
+// requests (verification harness only).
+func (rs *Requests) VerifLists() (queue, requested []uint32) {
+	for _, r := range rs.queue {
+		queue = append(queue, r.index)
+	}
+	for _, r := range rs.requested {
+		requested = append(requested, r.index)
+	}
+	return
+}
